@@ -327,9 +327,10 @@ def _strict_json(body: bytes) -> Any:
 
 
 class _Runner:
-    def __init__(self, chk: Check, cfg: dict[str, Any]) -> None:
+    def __init__(self, chk: Check, cfg: dict[str, Any], config_index: int = -1) -> None:
         self.chk = chk
         self.cfg = cfg
+        self.config_index = config_index
         self.app, self.plan, self.calls = _build(cfg)
         self.ref404: tuple[Any, str] | None = None
         self.path = cfg["prefix"] + "/__introspect_token__"
@@ -352,6 +353,7 @@ class _Runner:
         token = body.get("token")
         cls = f"{'enabled' if cfg['enabled'] else 'disabled'}/{'auth' if cfg['auth'] else 'noauth'}|{caller['cls']}|{body['cls']}|{outcome['cls']}"
         wit = {
+            "config_index": self.config_index,
             "config": {k: cfg[k] for k in ("prefix", "allow", "auth", "enabled")},
             "caller": caller,
             "body_class": body["cls"],
@@ -411,7 +413,7 @@ class _Runner:
                 return
             chk.hit("403_expected")
             if resp.status != 403:
-                chk.violation(f"non_allowlisted_not_403:{caller['cls']}:{resp.status}", "a caller outside the allowlist was not answered 403", wit)
+                chk.violation(f"non_allowlisted_not_403:{caller['cls']}", "a caller outside the allowlist was not answered 403", wit)
             return
 
         # -- subject axis --------------------------------------------------------------
@@ -538,7 +540,7 @@ def run_shard(job: dict[str, Any]) -> dict[str, Any]:
     chk = Check(PID, job["tier"], job["seed"])
     rng = random.Random(job["seed"])
     cfg = _CONFIGS[job["config"]]
-    runner = _Runner(chk, cfg)
+    runner = _Runner(chk, cfg, job["config"])
     allow = cfg["allow"] or ["edge-proxy"]
     callers = _callers(allow)
     outcomes = _outcomes()
@@ -598,11 +600,33 @@ def main(tier: str, seed: int) -> int:
     for ci in range(len(_CONFIGS)):
         jobs.append({"tier": tier, "seed": seed * 7919 + ci, "config": ci, "mode": "grid"})
     nrand = 6 if tier == "quick" else 48
-    per = 40 if tier == "quick" else 400
+    per = 40 if tier == "quick" else 300
     for i in range(nrand):
         jobs.append({"tier": tier, "seed": seed * 7919 + 100 + i, "config": i % len(_CONFIGS), "mode": "random", "count": per})
     for res in shard.pmap("checks.c36", "run_shard", jobs, timeout=300 if tier == "quick" else 1500):
         chk.merge(res)
     chk.exhaustive["class_grid_callers_x_bodies_and_bodies_x_outcomes"] = True
     chk.exhaustive["random_combinations"] = False
+    return chk.finish()
+
+
+def replay(path: str) -> int:
+    """Re-run the single (config, caller, body class, resolver outcome) case of a replay file's first witness."""
+    with open(path) as fh:
+        rp = json.load(fh)
+    wit = rp["witnesses"][0]
+    chk = Check(PID, rp["tier"], rp["seed"], level=CATEGORY, rule=RULE)
+    ci = wit.get("config_index", -1)
+    if not (0 <= ci < len(_CONFIGS)):
+        chk.inconclusive_because("replay file names no configuration")
+        return chk.finish()
+    runner = _Runner(chk, _CONFIGS[ci], ci)
+    body = next((b for b in _bodies(random.Random(0)) if b["cls"] == wit["body_class"]), None)
+    if body is None:
+        chk.inconclusive_because(f"unknown body class {wit['body_class']!r}")
+        return chk.finish()
+    runner.run(wit["caller"], body, wit["outcome"])
+    if rp["key"] not in chk.violations:
+        chk.violations.clear()
+        chk.inconclusive_because(f"replay did not reproduce {rp['key']}")
     return chk.finish()
